@@ -69,6 +69,13 @@ pub const CORPUS: &[&str] = &[
     "---\nrange: [-18, -12]\nyield: [-1]\n---\nMix @flour{500%g} and @water{300%ml}.\n\nRest -] it.\n",
     // a definition at the very end of a line, a note on its reference (the label sits after the definition)
     "@a{1}\n@&a{}(x)\n",
+    // components mode with text around the definitions (diagnosed fragment by fragment), comments and escapes in it
+    ">> [mode]: components\n [-é-]ééa @igr{1%kg} \\é more [- ñ -] ñ\n",
+    ">> [mode]: components\r\n é\r\né @igr{1%kg}\r\n",
+    // equal consecutive lines in a paragraph and equal consecutive text runs in a step
+    "> stir\n> stir\n> serve\n\nx @ 1 @ 1 @ 1\n",
+    // section names made of digits with leading zeros / escapes
+    "== 01 ==\nstep\n= 007\nstep\n== \\a ==\nstep\n",
 ];
 
 fn edit_symbols(tier: Tier) -> Vec<&'static str> {
